@@ -234,6 +234,19 @@ class MiniMallocate(RewritePattern):
                 assert next_op is not None
             return next_op
 
+        def add_uses(value: SSAValue, buffer: Buffer) -> None:
+            """
+            Add all operations using the value to the use list of the buffer.
+            The buffer is also still in use through all casts and views (subview, ...) of it.
+            """
+            for use in value.uses:
+                uses[get_top_level_op(use.operation)].append(buffer)
+                if isinstance(use.operation, builtin.UnrealizedConversionCastOp) or any(
+                    isinstance(result.type, builtin.MemRefType) for result in use.operation.results
+                ):
+                    for result in use.operation.results:
+                        add_uses(result, buffer)
+
         if len(func_op.body.blocks) != 1:
             return
 
@@ -263,13 +276,7 @@ class MiniMallocate(RewritePattern):
                 buffer_ops[buffer.id] = op
 
                 # add uses to the use list
-                for use in op.results[0].uses:
-                    use_op = get_top_level_op(use.operation)
-                    uses[use_op].append(buffer)
-                    if isinstance(use.operation, builtin.UnrealizedConversionCastOp):
-                        for cast_use in use.operation.results[0].uses:
-                            cast_use_op = get_top_level_op(cast_use.operation)
-                            uses[cast_use_op].append(buffer)
+                add_uses(op.results[0], buffer)
 
             if op in uses:
                 # udpate lifetime of buffer
